@@ -201,9 +201,9 @@ CBORBase = TypeVar("CBORBase", bound="CBORSerializable")
 
 def decode_array(self, subtype: int) -> Sequence[Any]:
     # Major tag 4
-    length = self._decode_length(subtype, allow_indefinite=True)
-
-    if length is None:
+    # Do not read the length here: the original decoder reads it itself, and reading it twice
+    # consumes the length bytes of every definite array with 24 or more elements.
+    if subtype == 31:
         return IndefiniteList(cast(Primitive, self.decode_array(subtype=subtype)))
     else:
         return self.decode_array(subtype=subtype)
